@@ -83,6 +83,17 @@ def single_check(space, vecs):
         exp = cross4(*vs)
         dep = not np.any(exp)
         naxes = 1
+    # equal vectors are also passed as one and the same object (the most natural way to write a coincident pair)
+    seen = {}
+    aliased = [seen.setdefault(tuple(int(x) for x in v), build(kind, v)) for v in vs]
+    if len({id(o) for o in aliased}) < len(aliased):
+        try:
+            r = op(*aliased)
+            return Fail("NO_RAISE", f"lattice:{space}:single:same-object-twice", f"{vecs} -> {r.array.tolist()}")
+        except LinearDependenceError:
+            pass
+        except Exception as e:  # noqa: BLE001
+            return exc_fail(e, f"lattice:{space}:single:same-object-twice")
     try:
         res = op(*[build(kind, v) for v in vs])
     except LinearDependenceError as e:
@@ -144,6 +155,17 @@ def run_lattice(case):
                 fails.append((mismatch(f"lattice:{space}:mask", {"dependent": bool(dep[b]), "reported": bool(dv[b])}), {"space": space, "vectors": [v[b].tolist() for v in vs]}))
     except Exception as e:  # noqa: BLE001
         fails.append((exc_fail(e, f"lattice:{space}:collection"), case))
+    # (1b) one and the same collection object as every argument: every position is dependent
+    try:
+        whole = build(kind, L)
+        r = op(*([whole] * k))
+        fails.append((Fail("NO_RAISE", f"lattice:{space}:collection:same-object-twice", ""), case))
+    except LinearDependenceError as e:
+        dv = np.asarray(e.dependent_values)
+        if dv.shape != (m,) or not np.all(dv):
+            fails.append((mismatch(f"lattice:{space}:collection:same-object-twice:mask", dv.shape), case))
+    except Exception as e:  # noqa: BLE001
+        fails.append((exc_fail(e, f"lattice:{space}:collection:same-object-twice"), case))
     # (2) the independent positions alone must not raise and give the right object
     ind = ~dep
     try:
